@@ -266,4 +266,224 @@ theorem execPrim_safe (env : Env) (inp : List Val) (dst : Option String) (p : Pr
          | exact setPriv_frame _ _ _ (asLoc_safe _ _ (hvs _ List.mem_cons_self) ‹asLoc _ = Except.ok _›) m hm
        · intro v hv; simp at hv)
 
+theorem SafeOut_plain (env : Env) (out : Out) (he : out.events = []) (henv : out.env = env)
+    (hc : ∀ v, out.ctl ≠ .ret (some v)) (hs : SafeEnv env) : SafeOut env out :=
+  ⟨by simp [he], henv ▸ hs, fun _ _ => by rw [henv], fun v hv => absurd hv (hc v)⟩
+
+theorem bindParams_safe : ∀ (ps : List String) (vs : List Val), (∀ v ∈ vs, SafeVal v = true) →
+    ∀ x v, bindParams ps vs x = some v → SafeVal v = true := by
+  intro ps
+  induction ps with
+  | nil => intro vs _ x v h; simp [bindParams] at h
+  | cons p ps ih =>
+    intro vs hvs x v h
+    cases vs with
+    | nil => simp [bindParams] at h
+    | cons w ws =>
+      simp only [bindParams] at h
+      split at h
+      · simp at h; subst h; exact hvs _ List.mem_cons_self
+      · exact ih ws (fun v hv => hvs v (List.mem_cons_of_mem _ hv)) x v h
+
+/-- two consecutive safe runs -/
+theorem SafeOut.append {env : Env} {o o2 : Out} (h1 : SafeOut env o) (h2 : SafeOut o.env o2) :
+    SafeOut env { o2 with events := o.events ++ o2.events } := by
+  refine ⟨?_, h2.2.1, ?_, h2.2.2.2⟩
+  · intro e he
+    simp only [List.mem_append] at he
+    rcases he with he | he
+    · exact h1.1 e he
+    · exact h2.1 e he
+  · intro l hl; simp only; rw [h2.2.2.1 l hl, h1.2.2.1 l hl]
+
+theorem iterate_safe (body : Env → List Val → Except String Out)
+    (hb : ∀ env inp out, SafeEnv env → body env inp = .ok out → (∀ e ∈ out.events, RetSafe e = true) → SafeOut env out) :
+    ∀ (n : Nat) env inp out, SafeEnv env → iterate body n env inp [] = .ok out →
+      (∀ e ∈ out.events, RetSafe e = true) → SafeOut env out := by
+  intro n
+  induction n with
+  | zero =>
+    intro env inp out hs h hr
+    simp only [iterate, Except.ok.injEq] at h; subst h
+    exact SafeOut_plain env _ rfl rfl (by simp) hs
+  | succ n ih =>
+    intro env inp out hs h hr
+    simp only [iterate, bind, Except.bind, List.nil_append] at h
+    cases hbo : body env inp with
+    | error m => simp [hbo] at h
+    | ok o =>
+      simp only [hbo] at h
+      have hrec : iterate body n o.env o.inp o.events = .ok out → SafeOut env out := by
+        intro hit
+        rw [iterate_acc] at hit
+        cases h2 : iterate body n o.env o.inp [] with
+        | error m => simp [h2] at hit
+        | ok o2 =>
+          simp only [h2, Except.ok.injEq] at hit; subst hit
+          have h1 := hb env inp o hs hbo (fun e he => hr e (by simp [he]))
+          exact h1.append (ih o.env o.inp o2 h1.2.1 h2 (fun e he => hr e (by simp [he])))
+      have hdir : ∀ c, (∀ v, c ≠ .ret (some v)) ∨ c = o.ctl → out = { o with events := o.events, ctl := c } →
+          SafeOut env out := by
+        intro c hc ho; subst ho
+        have h1 := hb env inp o hs hbo (fun e he => hr e he)
+        refine ⟨h1.1, h1.2.1, h1.2.2.1, ?_⟩
+        intro v hv
+        rcases hc with hc | hc
+        · exact absurd hv (hc v)
+        · exact h1.2.2.2 v (by rw [← hc]; exact hv)
+      cases hc : o.ctl with
+      | normal => simp only [hc] at h; exact hrec h
+      | cont => simp only [hc] at h; exact hrec h
+      | brk => simp only [hc, Except.ok.injEq] at h; exact hdir _ (Or.inl (by simp)) h.symm
+      | ret v => simp only [hc, Except.ok.injEq] at h; exact hdir _ (Or.inr hc.symm) h.symm
+      | blocked => simp only [hc, Except.ok.injEq] at h; exact hdir _ (Or.inl (by simp)) h.symm
+      | fuel => simp only [hc, Except.ok.injEq] at h; exact hdir _ (Or.inl (by simp)) h.symm
+
+set_option maxHeartbeats 1600000 in
+theorem exec_safe : ∀ (st : Stmt), okStmt st = true → ∀ (fuel : Nat) (env : Env) (inp : List Val) (out : Out),
+    SafeEnv env → exec fuel st env inp = .ok out → (∀ e ∈ out.events, RetSafe e = true) → SafeOut env out := by
+  intro st
+  induction st with
+  | skip =>
+    intro _ fuel env inp out hs h hr
+    simp only [exec, Except.ok.injEq] at h; subst h; exact SafeOut_plain env _ rfl rfl (by simp) hs
+  | brk =>
+    intro _ fuel env inp out hs h hr
+    simp only [exec, Except.ok.injEq] at h; subst h; exact SafeOut_plain env _ rfl rfl (by simp) hs
+  | cont =>
+    intro _ fuel env inp out hs h hr
+    simp only [exec, Except.ok.injEq] at h; subst h; exact SafeOut_plain env _ rfl rfl (by simp) hs
+  | assertDbg e =>
+    intro _ fuel env inp out hs h hr
+    simp only [exec, Except.ok.injEq] at h; subst h; exact SafeOut_plain env _ rfl rfl (by simp) hs
+  | seq a b iha ihb =>
+    intro hok fuel env inp out hs h hr
+    simp only [okStmt, Bool.and_eq_true] at hok
+    simp only [exec, bind, Except.bind] at h
+    cases h1 : exec fuel a env inp with
+    | error m => simp [h1] at h
+    | ok o =>
+      simp only [h1] at h
+      by_cases hn : o.ctl = .normal
+      · simp only [hn] at h
+        cases h2 : exec fuel b o.env o.inp with
+        | error m => simp [h2] at h
+        | ok o2 =>
+          simp only [h2, Except.ok.injEq] at h; subst h
+          have s1 := iha hok.1 fuel env inp o hs h1 (fun e he => hr e (by simp [he]))
+          exact s1.append (ihb hok.2 fuel o.env o.inp o2 s1.2.1 h2 (fun e he => hr e (by simp [he])))
+      · have : out = o := by revert h; cases hc : o.ctl <;> simp_all
+        subst this
+        exact iha hok.1 fuel env inp out hs h1 hr
+  | assign x e =>
+    intro hok fuel env inp out hs h hr
+    simp only [okStmt] at hok
+    simp only [exec, bind, Except.bind] at h
+    cases h1 : eval env e with
+    | error m => simp [h1] at h
+    | ok v =>
+      simp only [h1, Except.ok.injEq] at h; subst h
+      exact ⟨by simp, hs.setVar x v (eval_safe env hs e v hok h1), fun _ _ => rfl, by simp⟩
+  | pstore l e =>
+    intro hok fuel env inp out hs h hr
+    simp only [okStmt, Bool.and_eq_true] at hok
+    simp only [exec, bind, Except.bind] at h
+    cases h1 : eval env l with
+    | error m => simp [h1] at h
+    | ok vl =>
+      simp only [h1] at h
+      cases h2 : asLoc vl with
+      | error m => simp [h2] at h
+      | ok a =>
+        simp only [h2] at h
+        cases h3 : eval env e with
+        | error m => simp [h3] at h
+        | ok v =>
+          simp only [h3, Except.ok.injEq] at h; subst h
+          have ha := asLoc_safe vl a (eval_safe env hs l vl hok.1 h1) h2
+          exact ⟨by simp, hs.setPriv a v (eval_safe env hs e v hok.2 h3), setPriv_frame env a v ha, by simp⟩
+  | ifte c a b iha ihb =>
+    intro hok fuel env inp out hs h hr
+    simp only [okStmt, Bool.and_eq_true] at hok
+    simp only [exec, bind, Except.bind] at h
+    cases h1 : eval env c with
+    | error m => simp [h1] at h
+    | ok v =>
+      simp only [h1] at h
+      split at h
+      · exact iha hok.1.2 fuel env inp out hs h hr
+      · exact ihb hok.2 fuel env inp out hs h hr
+  | loop body ih =>
+    intro hok fuel env inp out hs h hr
+    simp only [okStmt] at hok
+    simp only [exec] at h
+    exact iterate_safe _ (fun e i o hse hbo hro => ih hok fuel e i o hse hbo hro) fuel env inp out hs h hr
+  | prim dst p args =>
+    intro hok fuel env inp out hs h hr
+    simp only [okStmt, Bool.and_eq_true] at hok
+    simp only [exec, bind, Except.bind] at h
+    cases h1 : evalArgs env args with
+    | error m => simp [h1] at h
+    | ok vs =>
+      simp only [h1] at h
+      exact execPrim_safe env inp dst p vs out hok.1 (evalArgs_safe env hs args vs hok.2 h1) hs h hr
+  | ret e =>
+    intro hok fuel env inp out hs h hr
+    cases e with
+    | none => simp only [exec, Except.ok.injEq] at h; subst h; exact SafeOut_plain env _ rfl rfl (by simp) hs
+    | some e =>
+      simp only [okStmt] at hok
+      simp only [exec, bind, Except.bind] at h
+      cases h1 : eval env e with
+      | error m => simp [h1] at h
+      | ok v =>
+        simp only [h1, Except.ok.injEq] at h; subst h
+        refine ⟨by simp, hs, fun _ _ => rfl, ?_⟩
+        intro w hw; simp at hw; subst hw; exact eval_safe env hs e v hok h1
+  | call dst params args body ih =>
+    intro hok fuel env inp out hs h hr
+    simp only [okStmt, Bool.and_eq_true] at hok
+    simp only [exec, bind, Except.bind] at h
+    cases h1 : evalArgs env args with
+    | error m => simp [h1] at h
+    | ok vs =>
+      simp only [h1] at h
+      split at h
+      · simp at h
+      · have hvs := evalArgs_safe env hs args vs hok.1 h1
+        have hs0 : SafeEnv { vars := bindParams params vs, priv := env.priv } :=
+          ⟨bindParams_safe params vs hvs, hs.priv⟩
+        cases h2 : exec fuel body { vars := bindParams params vs, priv := env.priv } inp with
+        | error m => simp [h2] at h
+        | ok o =>
+          simp only [h2] at h
+          have hback : SafeEnv { vars := env.vars, priv := o.env.priv } → True := fun _ => trivial
+          cases hc : o.ctl with
+          | normal =>
+            simp only [hc, Except.ok.injEq] at h; subst h
+            have s1 := ih hok.2 fuel _ inp o hs0 h2 hr
+            exact ⟨s1.1, (show SafeEnv { vars := env.vars, priv := o.env.priv } from ⟨hs.vars, s1.2.1.priv⟩), s1.2.2.1, by simp⟩
+          | ret v =>
+            cases v with
+            | none =>
+              simp only [hc, Except.ok.injEq] at h; subst h
+              have s1 := ih hok.2 fuel _ inp o hs0 h2 hr
+              exact ⟨s1.1, (show SafeEnv { vars := env.vars, priv := o.env.priv } from ⟨hs.vars, s1.2.1.priv⟩), s1.2.2.1, by simp⟩
+            | some v =>
+              simp only [hc, Except.ok.injEq] at h; subst h
+              have s1 := ih hok.2 fuel _ inp o hs0 h2 hr
+              have hv := s1.2.2.2 v hc
+              refine ⟨s1.1, SafeEnv.setDst (show SafeEnv { vars := env.vars, priv := o.env.priv } from ⟨hs.vars, s1.2.1.priv⟩) dst v hv, ?_, by simp⟩
+              intro l hl; simp only [setDst_priv]; exact s1.2.2.1 l hl
+          | brk => simp [hc] at h
+          | cont => simp [hc] at h
+          | blocked =>
+            simp only [hc, Except.ok.injEq] at h; subst h
+            have s1 := ih hok.2 fuel _ inp o hs0 h2 hr
+            exact ⟨s1.1, s1.2.1, s1.2.2.1, by simp [hc]⟩
+          | fuel =>
+            simp only [hc, Except.ok.injEq] at h; subst h
+            have s1 := ih hok.2 fuel _ inp o hs0 h2 hr
+            exact ⟨s1.1, s1.2.1, s1.2.2.1, by simp [hc]⟩
+
 end UrcuVerif.Src.Sync
